@@ -2,6 +2,9 @@ package rules
 
 import (
 	"fmt"
+	"go/ast"
+	"go/types"
+	"strings"
 
 	"cachelint/pw"
 )
@@ -139,6 +142,7 @@ func checkC02(c *Ctx) {
 	r.Rule("R02.2", "complete publication: at every owner release the (val, err) pair visible to waiters is (legit value, nil) or (·, non-nil error)", 2)
 	r.Rule("R02.3", "key threading: every keyed call-out uses this invocation's key (or a private copy of it)", 2)
 	r.Rule("R02.4", "errors have a source: backend, builder, failure cache, refresh write, or the owner's published error", 2)
+	r.Rule("R02.5", "the default backends keep keys apart: Write stores a private copy of the key it was given; a hash hit is confirmed by the full key", 6)
 	r.Assumptions = []string{
 		"a backend Read that returns a non-nil error returns no usable value (checked for in-module backends by C07 rules)",
 		"an error cannot both carry an expired item and be ErrNotFound (errExpired.Is matches ErrExpired only)",
@@ -152,6 +156,72 @@ func checkC02(c *Ctx) {
 			continue
 		}
 		c.c02Sibling(fo)
+	}
+	c.c02NoRecover()
+	// R02.5: the default backends keep keys apart (a value stored for one key is never found under another)
+	c.borrow("C09", func() {
+		for _, b := range backends {
+			if b.Sharded {
+				c.c09WriteCopies(b)
+				c.c09Confirm(b)
+			}
+		}
+	}, func(o *coreObl) (string, bool) { return "R02.5", o.Rule == "R09.2" || o.Rule == "R09.3" })
+}
+
+// c02NoRecover: a recover() in the frontend turns a panicking builder into a return of whatever the results hold — for
+// unnamed results the zero value and a nil error.
+func (c *Ctx) c02NoRecover() {
+	r := c.R
+	info := c.Pkg.TypesInfo
+	n := 0
+	c.eachFuncDecl(func(fd *ast.FuncDecl, fn *types.Func) {
+		if !sameRecvNamed(fn, "Failover") && !sameRecvNamed(fn, "FailoverOf") {
+			return
+		}
+		n++
+		ast.Inspect(fd.Body, func(x ast.Node) bool {
+			call, ok := x.(*ast.CallExpr)
+			if !ok {
+				return true
+			}
+			id, ok := call.Fun.(*ast.Ident)
+			if !ok || id.Name != "recover" {
+				return true
+			}
+			if _, isB := info.Uses[id].(*types.Builtin); !isB {
+				return true
+			}
+			// acceptable only if the function has a named error result that the recovering closure assigns
+			sig := fn.Type().(*types.Signature)
+			var errRes *types.Var
+			for i := 0; i < sig.Results().Len(); i++ {
+				if v := sig.Results().At(i); v.Name() != "" && v.Name() != "_" && types.TypeString(v.Type(), nil) == "error" {
+					errRes = v
+				}
+			}
+			assigned := false
+			if errRes != nil {
+				ast.Inspect(fd.Body, func(y ast.Node) bool {
+					if as, ok := y.(*ast.AssignStmt); ok {
+						for _, l := range as.Lhs {
+							if lid, ok := l.(*ast.Ident); ok && info.Uses[lid] == errRes {
+								assigned = true
+							}
+						}
+					}
+					return true
+				})
+			}
+			if !assigned {
+				r.Bad("R02.1", strings.TrimPrefix(pw.FuncName(fn), "cache."), "panic-swallowed", c.Pos(call.Pos()),
+					"recover() swallows a panic of the builder/backend and the function returns its (unnamed or unassigned) results: a zero value with a nil error reaches Get's caller and the waiters", nil)
+			}
+			return true
+		})
+	})
+	if n > 0 && !hasViolation(r.Obls, "R02.1", "package:recover") {
+		r.OK("R02.1", "package:recover", fmt.Sprintf("no panic is swallowed into a (zero, nil) result in the %d frontend methods", n))
 	}
 }
 
@@ -236,8 +306,29 @@ func (c *Ctx) c02Sibling(fo *FO) {
 		}
 		checkKeyed(p.Events, p.Events, false)
 		for _, g := range goEvents(p) {
+			// in the spawned closure the key must be a private copy made BEFORE the spawn (main-path events only): a copy
+			// taken inside the goroutine reads the caller's buffer after Get may have returned
+			var before []*pw.Event
+			for _, ev := range p.Events {
+				if ev == g {
+					break
+				}
+				before = append(before, ev)
+			}
 			for _, sp := range g.Sub {
-				checkKeyed(append(append([]*pw.Event{}, p.Events...), sp.Events...), sp.Events, true)
+				for _, ev := range sp.Events {
+					if ev.Kind != pw.EvCall {
+						continue
+					}
+					switch ev.Role {
+					case "BackendRead", "BackendWrite", "ErrorsRead", "ErrorsWrite":
+						nKeyed++
+						if len(ev.Args) < 2 || !isFreshCopyOf(before, ev.Args[1], fo.Key) {
+							d, t := c.pathDetail(fo, p, fmt.Sprintf("%s in the background goroutine is not keyed by a private copy of the key taken before the goroutine was spawned (the caller may have rewritten its buffer: the result lands under another key)", ev.Role))
+							r.Bad("R02.3", cons, "bg-key-"+ev.Role, c.Pos(ev.Pos), d, t)
+						}
+					}
+				}
 			}
 		}
 		// R02.2 publication at release (owner paths)
